@@ -468,7 +468,7 @@ macro_rules! repr_probes {
 
 // ------------------------------------------------------------------ EnumTable driver (C10)
 /// implemented by generated code for `<Enum>Table<u8>`; keys are declaration indices
-pub trait TableOps: Clone + PartialEq {
+pub trait TableOps: Clone + PartialEq + core::hash::Hash + core::fmt::Debug {
     fn enabled() -> Vec<usize>;
     fn disabled() -> Vec<usize>;
     fn new_from(args: &[u8]) -> Self;                       // <Enum>Table::new(args[0], args[1], ..)
@@ -512,6 +512,16 @@ pub fn table_drive<T: TableOps>(o: &mut Out, def: u32, depth: usize, steps: usiz
     { let c = tt.clone(); let eq = c == tt; tb_line(o, def, "clone", 3, 5, 0, 0, eq as i64, false, &tb_slots(&c), "");
       let mut c2 = c.clone(); if n > 0 { c2.write(en[0], 77); }
       tb_line(o, def, "read", -1, 5, if n > 0 { en[0] } else { 0 }, 0, if n > 0 { c.read(en[0]) as i64 } else { 0 }, false, &tb_slots(&c), ""); }
+    // PartialEq / Hash of the table agree with slot-wise equality (handles 2 = from_closure, 3 = transform, 5 = clone of 3)
+    {
+        use std::hash::{Hash, Hasher};
+        let h = |x: &T| { let mut s = std::collections::hash_map::DefaultHasher::new(); x.hash(&mut s); s.finish() };
+        let c = tt.clone();
+        for (a, b, ha, hb) in [(&tc, &tt, 2, 3), (&tt, &c, 3, 5), (&tc, &tc, 2, 2)] {
+            o.line(&format!("{{\"op\":\"tb\",\"def\":{},\"call\":\"eq\",\"from\":{},\"h\":{},\"k\":0,\"v\":{},\"res\":{},\"panic\":false,\"slots\":[]}}",
+                def, ha, hb, (h(a) == h(b)) as u8, (a == b) as u8));
+        }
+    }
     // every Some/None and Ok/Err mask
     if n <= 6 {
         for m in 0..(1u32 << n) {
